@@ -1,6 +1,7 @@
 import Proofs.XRealArith
 import Model.T4Spec
 import Proofs.T4SpecTie
+import Proofs.T4SpecFill
 import Mathlib.Data.List.Pairwise
 import Mathlib.Tactic.Linarith
 /-!
@@ -10,9 +11,14 @@ Model: `Model/T4Spec.lean` (assembly of a spectrum response from the grammar's t
 Proved here: the error formula (exact arithmetic) and the orientation step shared by the four axes — deciding that a
 grid was printed decreasing, and reversing bins and cells together, yields strictly increasing edges with every printed
 group still attached to its own score.  `convert_energy_axis` ties these statements to the executable model `convert` for responses with the energy
-axis only.  PARTIAL: the composition over the time / mu / phi axes inside `convert`, the
-pyparsing grammar, the mesh / Green bands / IFP / keff builders and the Apollo3 reader are covered by the
-correspondence (bit-exact unit level, ground-truth end to end), not by theorems.
+axis only.  For all four axes together (`all_axes_score_attached`, any sequence of blocks): when `convert` returns and
+no two blocks were read under the same (time step, mu zone, phi zone) indices, every printed row is the content of the
+cell at (its row index, those indices), each axis being read through the very flip that `convert` applies to the bins of
+that axis; `axis_bins_increasing` shows that this flip makes any strictly monotone edge list strictly increasing; and
+`time_edges_collected` says which edges the time axis is made of.  PARTIAL: that a *well-formed printed grid* yields
+pairwise distinct indices and the expected number of bins (`nbBins`) is not proved (it is what the generator of the
+correspondence builds); the pyparsing grammar, the mesh / Green bands / IFP / keff builders and the Apollo3 reader are
+covered by the correspondence (bit-exact unit level, ground-truth end to end), not by theorems.
 -/
 namespace T4Spec
 open XReal
@@ -329,5 +335,65 @@ theorem convert_energy_axis (g : List (ℝ × ℝ × Row XReal)) (hne : g ≠ []
   refine ⟨sp, hsp, ?_, ?_, h2, h3, h4, h10⟩
   · rw [h5, hedges, orientL_map]
   · rw [h6, hcells]
+
+end T4Spec
+
+namespace T4Spec
+open XReal
+
+/-! ### all four axes -/
+
+/-- **each score attached to the group, time step, mu zone and phi zone under which it was printed** (executable
+model, any block sequence; `ixf` is the identity or the reversal of an axis, the same one as for the bins) -/
+theorem all_axes_score_attached {d : List (Block XReal)} {sp : Spectrum XReal} (h : convert d = .ok sp)
+    (hnd : (cursors (0, 0, 0) d).Nodup) (k : Nat) (hk : k < d.length) (ie : Nat) (hie : ie < d[k].rows.length) :
+    ∃ (cu : Cur) (fe ft fm fp : Bool) (eb tb mb pb : List XReal),
+      (cursors (0, 0, 0) d)[k]? = some cu ∧
+      sp.ebins = orientL fe eb ∧ fe = decreasing eb ∧ sp.tbins = orientL ft tb ∧ ft = decreasing tb ∧
+      sp.mubins = orientL fm mb ∧ fm = decreasing mb ∧ sp.phibins = orientL fp pb ∧ fp = decreasing pb ∧
+      ie < sp.ne ∧ cu.1 < sp.nt ∧ cu.2.1 < sp.nmu ∧ cu.2.2 < sp.nphi ∧
+      sp.cells[((ixf fe sp.ne ie * sp.nt + ixf ft sp.nt cu.1) * sp.nmu + ixf fm sp.nmu cu.2.1) * sp.nphi
+        + ixf fp sp.nphi cu.2.2]? = some (some d[k].rows[ie]) :=
+  score_at_cursor h hnd k hk ie hie
+
+/-- **the flip decided on the first two edges puts any strictly monotone grid in increasing order** (any axis) -/
+theorem axis_bins_increasing (l : List ℝ) (h : l.Pairwise (· < ·) ∨ l.Pairwise (· > ·)) :
+    ∃ l' : List ℝ, orientL (decreasing (l.map fin)) (l.map fin) = l'.map fin ∧ l'.Pairwise (· < ·) ∧ l'.Perm l := by
+  rw [decreasing_fin]
+  cases l with
+  | nil => exact ⟨[], rfl, List.Pairwise.nil, List.Perm.refl _⟩
+  | cons x r =>
+    cases r with
+    | nil => exact ⟨[x], rfl, by simp, List.Perm.refl _⟩
+    | cons y r2 =>
+      simp only
+      by_cases hlt : y < x
+      · have hd : (x :: y :: r2).Pairwise (· > ·) := by
+          rcases h with hi | hd
+          · have : x < y := (List.pairwise_cons.1 hi).1 y (by simp)
+            exact absurd hlt (not_lt.2 (le_of_lt this))
+          · exact hd
+        refine ⟨(x :: y :: r2).reverse, ?_, List.pairwise_reverse.2 hd, List.reverse_perm _⟩
+        simp [orientL, hlt, List.map_reverse]
+      · have hi : (x :: y :: r2).Pairwise (· < ·) := by
+          rcases h with hi | hd
+          · exact hi
+          · exact absurd ((List.pairwise_cons.1 hd).1 y (by simp)) hlt
+        exact ⟨x :: y :: r2, by simp [orientL, hlt], hi, List.Perm.refl _⟩
+
+/-- the time edges `fill` collects: the first printed bound of every time step read, in order -/
+theorem time_edges_collected {d : List (Block XReal)} {b : B XReal} (ne nt nmu nphi : Nat)
+    (h : fill { ne := ne, nt := nt, nmu := nmu, nphi := nphi } d = .ok b) :
+    b.tbins = (d.filterMap (·.time)).map (·.a) := by
+  have := fill_tbins d _ _ h
+  simpa using this
+
+/-- non-vacuity: a 2 (time) x 2 (mu) grid printed with the time steps decreasing is read under four distinct indices -/
+example : (cursors (0, 0, 0)
+    [(⟨some ⟨0, fin 5, fin 9⟩, some ⟨0, fin (-1), fin 0⟩, none, [⟨fin 1, fin 2, fin 7, fin 1, fin 0⟩], none⟩ : Block XReal),
+     ⟨none, some ⟨1, fin 0, fin 1⟩, none, [⟨fin 1, fin 2, fin 8, fin 1, fin 0⟩], none⟩,
+     ⟨some ⟨1, fin 1, fin 5⟩, some ⟨0, fin (-1), fin 0⟩, none, [⟨fin 1, fin 2, fin 9, fin 1, fin 0⟩], none⟩,
+     ⟨none, some ⟨1, fin 0, fin 1⟩, none, [⟨fin 1, fin 2, fin 6, fin 1, fin 0⟩], none⟩]).Nodup := by
+  simp [cursors, curStep]
 
 end T4Spec
